@@ -57,6 +57,7 @@ def _work(job):
         out["label"] = (qual + "@" + role) if role else qual
         out["explore_s"] = round(time.time() - t0, 2)
         out["unreached"] = list(getattr(eng, "unreached", []))
+        out["contracts_applied"] = sorted(eng.contracts_applied)
         out["source_sha"] = reg.repo.func_source_hash(qual)
         if getattr(reg, "regex_facts", None) is not None:
             out["regex_facts"] = reg.regex_facts.log
@@ -113,6 +114,9 @@ def run_functions(ck, contract_modules, quals, timeout=20, hooks_mod=None, procs
 def report(ck, results, select=None, replayer=None, rename=None):
     """map worker results onto ck obligations.  select(name)->bool filters obligations of this property."""
     lock = load_lock()
+    used = set()
+    for res in results:
+        used.update(res.get("contracts_applied", []))
     for res in results:
         q = res.get("label", res["qual"])
         ck.under_contract(res["qual"], role="body verified against its sidecar contract (%d paths)%s" % (res["paths"], (" as role " + q.split("@")[1]) if "@" in q else ""))
@@ -137,6 +141,8 @@ def report(ck, results, select=None, replayer=None, rename=None):
             name = rec["name"]
             if select and not select(name):
                 continue
+            if rec["kind"] == "frame" and res["qual"] not in used:
+                continue      # frame conditions only matter for contracts some caller in this run relies on
             full = ck.prop + "/" + name
             if rec["kind"] == "raises" and (ck.prop + "/" + summary_name) in lock:
                 lock = set(lock) | {full}
